@@ -15,17 +15,32 @@ Theorem C20_flm_sound : forall (a b : list string) alo ahi blo bhi,
   /\ sub a (mA m) (mSize m) = sub b (mB m) (mSize m).
 Proof. exact (fun a b => flm_sound string String.eqb a b string_eqb_spec). Qed.
 
-(* ... is at least as long as every common run inside the window, and the same two facts as the
-   decidable predicates that the driver evaluates on what the real findLongestMatch returns *)
+(* ... no common slice inside the window is longer ... *)
+Theorem C20_flm_maximal : forall (a b : list string) alo ahi blo bhi,
+  alo <= ahi <= List.length a -> blo <= bhi <= List.length b ->
+  forall i j k, alo <= i -> i + k <= ahi -> blo <= j -> j + k <= bhi ->
+  sub a i k = sub b j k -> k <= mSize (find_longest_match String.eqb a b alo ahi blo bhi).
+Proof. exact (fun a b => flm_maximal_sub string String.eqb string_eqb_spec a b). Qed.
+
+(* ... of all longest common runs inside the window it is the one that starts earliest in a, and of
+   those the one that starts earliest in b; (alo, blo, 0) when nothing matches *)
+Theorem C20_flm_earliest : forall (a b : list string) alo ahi blo bhi,
+  alo <= ahi <= List.length a -> blo <= bhi <= List.length b ->
+  let m := find_longest_match String.eqb a b alo ahi blo bhi in
+  (mSize m = 0 -> mA m = alo /\ mB m = blo)
+  /\ forall i j, alo <= i -> i + mSize m <= ahi -> blo <= j -> j + mSize m <= bhi ->
+     0 < mSize m -> sub a i (mSize m) = sub b j (mSize m) ->
+     mA m < i \/ (mA m = i /\ mB m <= j).
+Proof. exact (fun a b => flm_earliest_sub string String.eqb string_eqb_spec a b). Qed.
+
+(* soundness, maximality (no common run inside the window is longer) and the tie-break as the decidable
+   predicates that the driver evaluates on what the real findLongestMatch returns *)
 Theorem C20_flm_checked : forall (a b : list string) alo ahi blo bhi,
   alo <= ahi <= List.length a -> blo <= bhi <= List.length b ->
   flm_okb String.eqb a b alo ahi blo bhi (find_longest_match String.eqb a b alo ahi blo bhi) = true
-  /\ flm_maxb String.eqb a b alo ahi blo bhi (find_longest_match String.eqb a b alo ahi blo bhi) = true.
-Proof.
-  intros a b alo ahi blo bhi Ha Hb. split.
-  - exact (flm_okb_holds string String.eqb string_eqb_spec a b alo ahi blo bhi Ha Hb).
-  - exact (flm_maxb_holds string String.eqb a b alo ahi blo bhi Ha Hb).
-Qed.
+  /\ flm_maxb String.eqb a b alo ahi blo bhi (find_longest_match String.eqb a b alo ahi blo bhi) = true
+  /\ flm_firstb String.eqb a b alo ahi blo bhi (find_longest_match String.eqb a b alo ahi blo bhi) = true.
+Proof. exact (fun a b => flm_checked string String.eqb string_eqb_spec a b). Qed.
 
 (* matchingBlocks: fuel |a|+|b|+1 suffices; the blocks are non-empty equal slices, increasing in both
    texts (each starts at or after the end of the previous one), followed by the sentinel *)
@@ -38,10 +53,7 @@ Proof. exact (matching_blocks_sound string String.eqb string_eqb_spec). Qed.
 Theorem C20_matching_blocks_nonadjacent : forall a b : list string,
   exists l, matching_blocks String.eqb a b = Some (l ++ [(List.length a, List.length b, 0)])
             /\ nonadj l.
-Proof.
-  intros a b. destruct (matching_blocks_nonadj string String.eqb a b) as (l & E & _ & H).
-  exists l. split; [exact E | exact H].
-Qed.
+Proof. exact (matching_blocks_nonadjacent string String.eqb). Qed.
 
 (* GetOpCodes: the codes tile [0,|a|) and [0,|b|) contiguously; 'e' ranges are equal slices,
    'd' has j1 = j2, 'i' has i1 = i2, 'r' has both ranges non-empty *)
@@ -163,6 +175,8 @@ Print Assumptions C20_diff_spec.
 Print Assumptions C20_parse_render.
 Print Assumptions C20_diffmatch_empty_iff.
 Print Assumptions C20_flm_checked.
+Print Assumptions C20_flm_earliest.
+Print Assumptions C20_flm_maximal.
 Print Assumptions C20_blocks_checked.
 Print Assumptions C20_opcodes_checked.
 Print Assumptions C20_lines_spec.
